@@ -13,6 +13,7 @@ weight the additions of iteration `t` by `t^γ`: after `t` iterations
 * player one's accumulator times `t^γ` is `Σ_{k ≤ t} k^γ · (additions of iteration k)`.
 -/
 set_option linter.unusedSectionVars false
+set_option linter.unusedVariables false
 namespace Cfr
 
 /-- the state of the external-sampling solver after `t` iterations (no early termination) -/
@@ -44,12 +45,257 @@ noncomputable def extStratInc (g : Game ℝ) (p : RegretParams ℝ) (draw : Draw
     effSum (erec (xPassCtx g true draw (k + 1) (extRun g p draw k).1) g.root
       { log := (extRun g p draw k).2 }).2.1 false I Slot.strat a
 
+namespace XA
+
+/-! ## the run -/
+
+theorem extRun_zero (g : Game ℝ) (p : RegretParams ℝ) (draw : DrawFn ℝ) :
+    extRun g p draw 0 = (SolveSt.init g, []) := rfl
+
+theorem extRun_succ (g : Game ℝ) (p : RegretParams ℝ) (draw : DrawFn ℝ) (t : Nat) :
+    extRun g p draw (t + 1) =
+      ((externalIter g p draw (t + 1) (extRun g p draw t).1 (extRun g p draw t).2).1,
+       (externalIter g p draw (t + 1) (extRun g p draw t).1 (extRun g p draw t).2).2.2.2) := rfl
+
+/-- the end of iteration `t + 1` is player two's pass on the mid state -/
+theorem extRun_succ_mid (g : Game ℝ) (p : RegretParams ℝ) (draw : DrawFn ℝ) (t : Nat) :
+    (extRun g p draw (t + 1)).1 =
+      (externalPass g false p draw (t + 1) (extMid g p draw t).1 (extMid g p draw t).2).1 := rfl
+
+/-- without a threshold the loop performs all its iterations -/
+theorem solveLoop_none_extRun (g : Game ℝ) (p : RegretParams ℝ) (draw : DrawFn ℝ) :
+    ∀ (n t : Nat) (r1 r2 : Ext ℝ),
+      (solveLoop (externalIter g p draw) none n (t + 1) (extRun g p draw t).1 r1 r2
+          (extRun g p draw t).2).stratOne = (extRun g p draw (t + n)).1.avg true ∧
+      (solveLoop (externalIter g p draw) none n (t + 1) (extRun g p draw t).1 r1 r2
+          (extRun g p draw t).2).stratTwo = (extRun g p draw (t + n)).1.avg false := by
+  intro n
+  induction n with
+  | zero => intro t r1 r2; simp [solveLoop]
+  | succ n ih =>
+    intro t r1 r2
+    rw [wf_solveLoop_succ]
+    have hb : ∀ a b : ℝ, belowThreshold a b none = false := fun _ _ => rfl
+    rw [hb]
+    simp only [Bool.false_eq_true, if_false]
+    have := ih (t + 1) (.fin (externalIter g p draw (t + 1) (extRun g p draw t).1
+      (extRun g p draw t).2).2.1) (.fin (externalIter g p draw (t + 1) (extRun g p draw t).1
+      (extRun g p draw t).2).2.2.1)
+    rw [extRun_succ] at this
+    rw [show t + (n + 1) = t + 1 + n by omega]
+    exact this
+
+/-! ## `get` / `set` -/
+
+theorem get_set_self (s : SolveSt ℝ) (o : Bool) (l : List (InfoSt ℝ)) : (s.set o l).get o = l := by
+  cases o <;> simp [SolveSt.set, SolveSt.get]
+
+theorem get_set_other (s : SolveSt ℝ) (o me : Bool) (l : List (InfoSt ℝ)) (h : me ≠ o) :
+    (s.set o l).get me = s.get me := by
+  cases o <;> cases me <;> simp_all [SolveSt.set, SolveSt.get]
+
+/-- the effect list of one pass -/
+noncomputable def passEffs (g : Game ℝ) (first : Bool) (draw : DrawFn ℝ) (it : Nat) (s : SolveSt ℝ)
+    (log : List (DrawRec ℝ)) : List (Eff ℝ) :=
+  (erec (xPassCtx g first draw it s) g.root { log := log }).2.1
+
+theorem externalPass_get_self (g : Game ℝ) (first : Bool) (p : RegretParams ℝ) (draw : DrawFn ℝ)
+    (it : Nat) (s : SolveSt ℝ) (log : List (DrawRec ℝ)) :
+    (externalPass g first p draw it s log).1.get first
+      = ((s.applyEffs (passEffs g first draw it s log)).get first).map
+          (fun x => (x.advance p it (if first then it - 1 else it)).1) := by
+  simp only [externalPass, get_set_self]
+  exact (advanceAll_spec p it _ _ 0).1
+
+theorem externalPass_get_other (g : Game ℝ) (first : Bool) (p : RegretParams ℝ) (draw : DrawFn ℝ)
+    (it : Nat) (s : SolveSt ℝ) (log : List (DrawRec ℝ)) (me : Bool) (h : me ≠ first) :
+    (externalPass g first p draw it s log).1.get me
+      = (s.applyEffs (passEffs g first draw it s log)).get me := by
+  simp only [externalPass, get_set_other _ _ _ _ h]
+  rfl
+
+/-! ## nothing is added to the updating player's average-strategy accumulators -/
+
+theorem effSum_subEffsE_strat (one : Bool) (i : Nat) (sub : ℝ) (n : Nat) (me : Bool) (I a : Nat) :
+    effSum (subEffsE one i sub n) me I Slot.strat a = 0 :=
+  effSum_subEffs_strat one i sub n me I a
+
+theorem effSum_extStratEffs_strat_ne (one : Bool) (i : Nat) (me : Bool) (I a : Nat) (h : one ≠ me) :
+    ∀ (σ : List ℝ) (k : Nat), effSum (extStratEffs one i σ k) me I Slot.strat a = 0
+  | [], k => by simp [extStratEffs]
+  | s :: σ, k => by
+    simp [extStratEffs, effSum_cons, h, effSum_extStratEffs_strat_ne one i me I a h σ (k + 1)]
+
+theorem effSum_cons_regret_strat (one : Bool) (i k : Nat) (δ : ℝ) (es : List (Eff ℝ)) (me : Bool)
+    (I a : Nat) :
+    effSum (⟨one, i, .regret, k, δ⟩ :: es) me I Slot.strat a = effSum es me I Slot.strat a := by
+  rw [effSum_cons]
+  simp
+
+mutual
+theorem erec_strat_zero (c : ECtx ℝ) (I a : Nat) :
+    ∀ (n : Node ℝ) (d : DrawSt ℝ), effSum (erec c n d).2.1 c.first I Slot.strat a = 0
+  | .term p, d => by simp [erec]
+  | .chance i ks, d => by
+    rw [erec_chance']
+    exact erecNth_strat_zero c I a ks _ _
+  | .player one i ks, d => by
+    by_cases ho : (one == c.first) = true
+    · rw [erec_own' c one i ks d ho]
+      simp only [effSum_append, effSum_subEffsE_strat, add_zero]
+      exact erecActs_strat_zero c I a one i _ ks d 0 0
+    · have ho' : one ≠ c.first := by simpa using ho
+      rw [erec_opp' c one i ks d ho]
+      simp only [effSum_append, effSum_extStratEffs_strat_ne one i c.first I a ho', zero_add]
+      exact erecNth_strat_zero c I a ks _ _
+theorem erecNth_strat_zero (c : ECtx ℝ) (I a : Nat) :
+    ∀ (ks : List (Node ℝ)) (k : Nat) (d : DrawSt ℝ),
+      effSum (erecNth c ks k d).2.1 c.first I Slot.strat a = 0
+  | [], _, d => by simp [erecNth]
+  | k :: _, 0, d => by
+    simp only [erecNth]
+    exact erec_strat_zero c I a k d
+  | _ :: ks, n + 1, d => by
+    simp only [erecNth]
+    exact erecNth_strat_zero c I a ks n d
+theorem erecActs_strat_zero (c : ECtx ℝ) (I a : Nat) (one : Bool) (i : Nat) :
+    ∀ (ss : List ℝ) (ks : List (Node ℝ)) (d : DrawSt ℝ) (k : Nat) (ex : ℝ),
+      effSum (erecActs c one i ss ks d k ex).2.1 c.first I Slot.strat a = 0
+  | s :: ss, n :: ks, d, k, ex => by
+    rw [erecActs_cons']
+    simp only [effSum_append]
+    rw [effSum_cons_regret_strat, erec_strat_zero c I a n d,
+      erecActs_strat_zero c I a one i ss ks _ _ _]
+    simp
+  | [], _, d, _, _ => by simp [erecActs]
+  | _ :: _, [], d, _, _ => by simp [erecActs]
+end
+
+theorem passEffs_strat_zero (g : Game ℝ) (first : Bool) (draw : DrawFn ℝ) (it : Nat) (s : SolveSt ℝ)
+    (log : List (DrawRec ℝ)) (I a : Nat) :
+    effSum (passEffs g first draw it s log) first I Slot.strat a = 0 :=
+  erec_strat_zero (xPassCtx g first draw it s) I a g.root _
+
+/-! ## one pass, one cell -/
+
+/-- the table sizes are unchanged by a pass -/
+theorem externalPass_length (g : Game ℝ) (first : Bool) (p : RegretParams ℝ) (draw : DrawFn ℝ)
+    (it : Nat) (s : SolveSt ℝ) (log : List (DrawRec ℝ)) (me : Bool) :
+    ((externalPass g first p draw it s log).1.get me).length = (s.get me).length := by
+  by_cases h : me = first
+  · subst h
+    rw [externalPass_get_self, List.length_map]
+    exact (applyEffs_cell s _ me).1
+  · rw [externalPass_get_other _ _ _ _ _ _ _ _ h]
+    exact (applyEffs_cell s _ me).1
+
+/-- the updating player's accumulator: nothing added, then the discount with the average index -/
+theorem externalPass_cell_self (g : Game ℝ) (first : Bool) (p : RegretParams ℝ) (hp : 0 ≤ p.strat)
+    (draw : DrawFn ℝ) (it : Nat) (s : SolveSt ℝ) (log : List (DrawRec ℝ)) (I : Nat) (x : InfoSt ℝ)
+    (hx : (s.get first)[I]? = some x) :
+    ∃ x', ((externalPass g first p draw it s log).1.get first)[I]? = some x' ∧
+      x'.cumStrat.length = x.cumStrat.length ∧
+      ∀ a, a < x.cumStrat.length →
+        x'.cumStrat.getD a 0 = x.cumStrat.getD a 0 *
+          (((if first then it - 1 else it : Nat) : ℝ) /
+            (((if first then it - 1 else it : Nat) : ℝ) + 1)) ^ p.strat := by
+  obtain ⟨_, hc⟩ := applyEffs_cell s (passEffs g first draw it s log) first
+  obtain ⟨x1, g1, _, _, t2, _, cs2⟩ := hc I x hx
+  refine ⟨(x1.advance p it (if first then it - 1 else it)).1, ?_, ?_, ?_⟩
+  · rw [externalPass_get_self, List.getElem?_map, g1]; rfl
+  · simp only [InfoSt.advance]
+    rw [discountAverageStrat_entry p hp, List.length_map, t2]
+  · intro a ha
+    simp only [InfoSt.advance]
+    rw [discountAverageStrat_entry p hp, getD_map_lt _ _ a (by rw [t2]; exact ha), cs2 a ha,
+      passEffs_strat_zero, add_zero]
+
+/-- the other player's accumulator: the pass's additions, no discount -/
+theorem externalPass_cell_other (g : Game ℝ) (first : Bool) (p : RegretParams ℝ)
+    (draw : DrawFn ℝ) (it : Nat) (s : SolveSt ℝ) (log : List (DrawRec ℝ)) (me : Bool)
+    (hme : me ≠ first) (I : Nat) (x : InfoSt ℝ) (hx : (s.get me)[I]? = some x) :
+    ∃ x', ((externalPass g first p draw it s log).1.get me)[I]? = some x' ∧
+      x'.cumStrat.length = x.cumStrat.length ∧
+      ∀ a, a < x.cumStrat.length →
+        x'.cumStrat.getD a 0 = x.cumStrat.getD a 0
+          + effSum (passEffs g first draw it s log) me I Slot.strat a := by
+  obtain ⟨_, hc⟩ := applyEffs_cell s (passEffs g first draw it s log) me
+  obtain ⟨x1, g1, _, _, t2, _, cs2⟩ := hc I x hx
+  refine ⟨x1, ?_, t2, cs2⟩
+  rw [externalPass_get_other _ _ _ _ _ _ _ _ hme, g1]
+
+/-! ## table sizes along the run -/
+
+theorem extMid_length (g : Game ℝ) (p : RegretParams ℝ) (draw : DrawFn ℝ) (t : Nat) (me : Bool) :
+    ((extMid g p draw t).1.get me).length = ((extRun g p draw t).1.get me).length :=
+  externalPass_length g true p draw (t + 1) _ _ me
+
+theorem extRun_succ_length (g : Game ℝ) (p : RegretParams ℝ) (draw : DrawFn ℝ) (t : Nat) (me : Bool) :
+    ((extRun g p draw (t + 1)).1.get me).length = ((extMid g p draw t).1.get me).length := by
+  rw [extRun_succ_mid]
+  exact externalPass_length g false p draw (t + 1) _ _ me
+
+/-! ## one iteration, one cell -/
+
+/-- player two's accumulator through iteration `t + 1` -/
+theorem step_two (g : Game ℝ) (p : RegretParams ℝ) (hp : 0 ≤ p.strat) (draw : DrawFn ℝ) (t : Nat)
+    (I : Nat) (x : InfoSt ℝ) (hx : ((extRun g p draw t).1.get false)[I]? = some x) :
+    ∃ x'', ((extRun g p draw (t + 1)).1.get false)[I]? = some x'' ∧
+      x''.cumStrat.length = x.cumStrat.length ∧
+      ∀ a, a < x.cumStrat.length →
+        x''.cumStrat.getD a 0 = (x.cumStrat.getD a 0 + extStratInc g p draw t false I a) *
+          (((t + 1 : Nat) : ℝ) / (((t + 1 : Nat) : ℝ) + 1)) ^ p.strat := by
+  obtain ⟨x1, h1, l1, c1⟩ := externalPass_cell_other g true p draw (t + 1) (extRun g p draw t).1
+    (extRun g p draw t).2 false (by simp) I x hx
+  obtain ⟨x2, h2, l2, c2⟩ := externalPass_cell_self g false p hp draw (t + 1) (extMid g p draw t).1
+    (extMid g p draw t).2 I x1 h1
+  refine ⟨x2, by rw [extRun_succ_mid]; exact h2, l2.trans l1, ?_⟩
+  intro a ha
+  rw [c2 a (by rw [l1]; exact ha), c1 a ha]
+  simp only [Bool.false_eq_true, if_false]
+  rfl
+
+/-- player one's accumulator through iteration `t + 1` -/
+theorem step_one (g : Game ℝ) (p : RegretParams ℝ) (hp : 0 ≤ p.strat) (draw : DrawFn ℝ) (t : Nat)
+    (I : Nat) (x : InfoSt ℝ) (hx : ((extRun g p draw t).1.get true)[I]? = some x) :
+    ∃ x'', ((extRun g p draw (t + 1)).1.get true)[I]? = some x'' ∧
+      x''.cumStrat.length = x.cumStrat.length ∧
+      ∀ a, a < x.cumStrat.length →
+        x''.cumStrat.getD a 0 = x.cumStrat.getD a 0 *
+          (((t : Nat) : ℝ) / (((t : Nat) : ℝ) + 1)) ^ p.strat + extStratInc g p draw t true I a := by
+  obtain ⟨x1, h1, l1, c1⟩ := externalPass_cell_self g true p hp draw (t + 1) (extRun g p draw t).1
+    (extRun g p draw t).2 I x hx
+  obtain ⟨x2, h2, l2, c2⟩ := externalPass_cell_other g false p draw (t + 1) (extMid g p draw t).1
+    (extMid g p draw t).2 true (by simp) I x1 h1
+  refine ⟨x2, by rw [extRun_succ_mid]; exact h2, l2.trans l1, ?_⟩
+  intro a ha
+  rw [c2 a (by rw [l1]; exact ha), c1 a ha]
+  simp only [if_true, Nat.add_sub_cancel]
+  rfl
+
+/-- `(t/(t+1))^γ · (t+1)^γ = t^γ`, also at `t = 0` -/
+theorem ratio_rpow (γ : ℝ) (t : Nat) :
+    (((t : Nat) : ℝ) / (((t : Nat) : ℝ) + 1)) ^ γ * ((t + 1 : Nat) : ℝ) ^ γ = ((t : Nat) : ℝ) ^ γ := by
+  have h1 : (0 : ℝ) ≤ (t : ℝ) := by positivity
+  have h2 : (0 : ℝ) ≤ (t : ℝ) + 1 := by positivity
+  have e : ((t + 1 : Nat) : ℝ) = (t : ℝ) + 1 := by push_cast; ring
+  rw [Real.div_rpow h1 h2, e]
+  have h3 : ((t : ℝ) + 1) ^ γ ≠ 0 := (Real.rpow_pos_of_pos (by positivity) _).ne'
+  exact div_mul_cancel₀ _ h3
+
+end XA
+
+open XA in
 /-- the run is what `solve_external_single` computes -/
 theorem extRun_returns (g : Game ℝ) (p : RegretParams ℝ) (draw : DrawFn ℝ) (T : Nat) :
     (solveExternalSingle g p draw T none).stratOne = (extRun g p draw T).1.avg true ∧
     (solveExternalSingle g p draw T none).stratTwo = (extRun g p draw T).1.avg false := by
-  sorry
+  have := solveLoop_none_extRun g p draw T 0 .posInf .posInf
+  simp only [zero_add, extRun_zero] at this
+  unfold solveExternalSingle solveWith
+  exact this
 
+open XA in
 /-- **player two's average weights** -/
 theorem external_avg_weights_two (g : Game ℝ) (hg : GameWF g) (p : RegretParams ℝ) (hp : 0 ≤ p.strat)
     (draw : DrawFn ℝ) (t : Nat) (I : Nat) (x : InfoSt ℝ)
@@ -57,8 +303,30 @@ theorem external_avg_weights_two (g : Game ℝ) (hg : GameWF g) (p : RegretParam
     x.cumStrat.getD a 0 * ((t + 1 : Nat) : ℝ) ^ p.strat
       = ((List.range t).map (fun k => ((k + 1 : Nat) : ℝ) ^ p.strat *
           extStratInc g p draw k false I a)).sum := by
-  sorry
+  induction t generalizing x with
+  | zero =>
+    obtain ⟨n, rfl⟩ := PG.init_cell g false I x hx
+    simp only [InfoSt.new, List.getD_eq_getElem?_getD, List.getElem?_replicate, List.range_zero,
+      List.map_nil, List.sum_nil]
+    split_ifs <;> simp
+  | succ t ih =>
+    have hI : I < ((extRun g p draw t).1.get false).length := by
+      rw [← extMid_length, ← extRun_succ_length]
+      exact (List.getElem?_eq_some_iff.mp hx).1
+    have hx0 := List.getElem?_eq_getElem hI
+    obtain ⟨y, hy, ly, cy⟩ := step_two g p hp draw t I _ hx0
+    rw [hy] at hx
+    obtain rfl : y = x := by simpa using hx
+    have ha0 : a < (((extRun g p draw t).1.get false)[I]).cumStrat.length := by rw [← ly]; exact ha
+    have ih' := ih _ hx0 ha0
+    rw [cy a ha0, List.range_succ, List.map_append, List.sum_append, ← ih', mul_assoc]
+    have := PG.ratio_wgt p t
+    unfold PG.wgt at this
+    rw [this]
+    simp only [List.map_cons, List.map_nil, List.sum_cons, List.sum_nil]
+    ring
 
+open XA in
 /-- **player one's average weights** (the `it − 1` of the first player compensates that its
 additions of iteration `t` arrive after its advance of iteration `t`) -/
 theorem external_avg_weights_one (g : Game ℝ) (hg : GameWF g) (p : RegretParams ℝ) (hp : 0 ≤ p.strat)
@@ -67,6 +335,25 @@ theorem external_avg_weights_one (g : Game ℝ) (hg : GameWF g) (p : RegretParam
     x.cumStrat.getD a 0 * ((t : Nat) : ℝ) ^ p.strat
       = ((List.range t).map (fun k => ((k + 1 : Nat) : ℝ) ^ p.strat *
           extStratInc g p draw k true I a)).sum := by
-  sorry
+  induction t generalizing x with
+  | zero =>
+    obtain ⟨n, rfl⟩ := PG.init_cell g true I x hx
+    simp only [InfoSt.new, List.getD_eq_getElem?_getD, List.getElem?_replicate, List.range_zero,
+      List.map_nil, List.sum_nil]
+    split_ifs <;> simp
+  | succ t ih =>
+    have hI : I < ((extRun g p draw t).1.get true).length := by
+      rw [← extMid_length, ← extRun_succ_length]
+      exact (List.getElem?_eq_some_iff.mp hx).1
+    have hx0 := List.getElem?_eq_getElem hI
+    obtain ⟨y, hy, ly, cy⟩ := step_one g p hp draw t I _ hx0
+    rw [hy] at hx
+    obtain rfl : y = x := by simpa using hx
+    have ha0 : a < (((extRun g p draw t).1.get true)[I]).cumStrat.length := by rw [← ly]; exact ha
+    have ih' := ih _ hx0 ha0
+    rw [cy a ha0, List.range_succ, List.map_append, List.sum_append, ← ih', add_mul, mul_assoc,
+      ratio_rpow]
+    simp only [List.map_cons, List.map_nil, List.sum_cons, List.sum_nil]
+    ring
 
 end Cfr
